@@ -15,8 +15,8 @@ def check_C09(tier, seed):
     r = random.Random(seed * 7919 + 9)
     quick = tier == "quick"
     seqs, gst = V.gen("SeqGen.tla", "SeqGen_route4.cfg" if quick else "SeqGen_route5.cfg", "C09")
-    n_seq = 400 if quick else 32768
-    n_rand = 200 if quick else 8000
+    n_seq = 400 if quick else 4000
+    n_rand = 200 if quick else 1000
     scripts = [scen_c09.routing_script(r, i, s) for i, s in enumerate(props.sample(seqs, n_seq, r))]
     scripts += [scen_c09.routing_random(r, len(scripts) + i) for i in range(n_rand)]
     mcs = [("Routing.tla", "MC_Routing.cfg" if quick else "MC_Routing4.cfg")]
